@@ -531,8 +531,17 @@ func (c *Conn) Query(_ context.Context, query string, args ...any) (driver.Rows,
 	}
 	if q == "SHOW TABLES" { // Cleanup's helper (unused while its dependency table is empty); harmless read
 		names := []string{}
-		for n := range c.db.hostsFrom(c.at)[0].Objs {
+		h0 := c.db.hostsFrom(c.at)[0]
+		for n := range h0.Objs {
 			names = append(names, n)
+		}
+		// round 8: the version tables are tables of the connected host too (kept outside Objs); a fake that never lists
+		// them hides every piece of code that asks "does ver exist?" before creating it (seeded C18-h)
+		if h0.VerTbl {
+			names = append(names, "ver")
+		}
+		if h0.VdTbl {
+			names = append(names, "ver_dist")
 		}
 		sort.Strings(names)
 		return &rows{strs: names}, nil
